@@ -17,6 +17,7 @@
 (declare-fun fadd (Int Int) Int) (declare-fun fsub (Int Int) Int) (declare-fun fmul (Int Int) Int) (declare-fun fdiv (Int Int) Int)
 (declare-fun cadd (Int Int) Int) (declare-fun csub (Int Int) Int) (declare-fun cmul (Int Int) Int) (declare-fun cdiv (Int Int) Int)
 (declare-fun flt (Int Int) Bool) (declare-fun fle (Int Int) Bool) (declare-fun fgt (Int Int) Bool) (declare-fun fge (Int Int) Bool)
+(declare-fun fneg (Int) Int) (declare-fun cneg (Int) Int)  ; unary minus of a float / complex: the sign flip (-(+0) is -0; not 0 - x)
 (declare-fun round32 (Int) Int)
 (assert (forall ((c Int)) (! (= (round32 (constF32 c)) (constF32 c)) :pattern ((constF32 c)))))  ; a float32 value is a fixed point of rounding to float32
 
